@@ -39,6 +39,8 @@ var c13x struct {
 	log    []c13xEv
 	pools  []interface{} // kept alive so that identities (addresses) cannot be reused within a case
 	failAt string        // "<Hook>/<table>/<name>"
+	failErr  string      // error VALUE kind the failing hook returns (c13_errvals.go)
+	returned []error     // error objects returned by failing hooks
 	rec    *Recorder
 }
 
@@ -75,14 +77,19 @@ func c13xHook(hook, table, name string, tx *gorm.DB) error {
 	id, isTx := c13xPoolID(tx.Statement.ConnPool)
 	c13x.log = append(c13x.log, c13xEv{hook, table, name, id, isTx, pos})
 	if c13x.failAt == hook+"/"+table+"/"+name {
-		return errHook
+		kind := c13x.failErr
+		c13x.mu.Unlock()
+		err := c13MakeErr(kind, tx, hook) // may issue statements through tx (probe callbacks take the lock)
+		c13x.mu.Lock()
+		c13x.returned = append(c13x.returned, err)
+		return err
 	}
 	return nil
 }
 
 func c13xProbe(kind string) func(db *gorm.DB) {
 	return func(db *gorm.DB) {
-		if db.Error != nil || db.Statement.Schema == nil || db.DryRun {
+		if db.Error != nil || db.Statement.Schema == nil || db.DryRun || db.Statement.Table == "hxuniq" {
 			return
 		}
 		pos := c13xDrvPos()
@@ -202,11 +209,12 @@ type c13xCase struct {
 	Batch int      `json:"batch,omitempty"` // batch size (create via inbatches/session/config, find via batches)
 	Sel   string   `json:"sel,omitempty"`   // "", select:name,tag  omit:tag  select:*  omit:assoc  select:Kids select:assoc | firstorcreate: attrs assign | find: preload:Kids preload:Boss preload:assoc
 	Assoc string   `json:"assoc,omitempty"` // in-memory associations of the records written: "", kids, boss, both
-	Ctx   string   `json:"ctx,omitempty"`   // "" (default transaction), usertx, skipdefault, prepare
+	Ctx   string   `json:"ctx,omitempty"`   // "" (default transaction), usertx, skipdefault, prepare, nested, prepare-session
 	Skip  string   `json:"skip,omitempty"`  // "", session, updatecolumn, updatecolumns
 	// fault: a hook invocation that returns an error, or the k-th (1-based) write statement failing at the driver
 	FailAt   string `json:"fail_at,omitempty"`
 	FailStmt int    `json:"fail_stmt,omitempty"`
+	FailErr  string `json:"fail_err,omitempty"` // error VALUE kind of the failing hook (c13ErrKinds; "" = plain)
 }
 
 type c13xObs struct {
@@ -217,6 +225,7 @@ type c13xObs struct {
 	Writes  []int               `json:"write_windows"` // per write statement at the driver: index of the begin..commit window it lies in (-1 = outside any)
 	Windows int                 `json:"windows"`
 	Batches []int               `json:"batches,omitempty"` // rows per INSERT into hxparent, in order
+	ErrReturned bool            `json:"err_returned"`      // the result carries every error a failing hook returned
 }
 
 func c13xDump(db *gorm.DB, rec *Recorder) map[string][]string {
@@ -249,6 +258,7 @@ func c13xDump(db *gorm.DB, rec *Recorder) map[string][]string {
 		rows.Close()
 		out[t] = list
 	}
+	out["aux"] = c13AuxDump(db)
 	return out
 }
 
@@ -452,6 +462,7 @@ func c13xRun(c c13xCase) c13xObs {
 	_ = db.Callback().Update().After("gorm:update").Before("gorm:save_after_associations").Register("c13x:stmt", c13xProbe("update"))
 	_ = db.Callback().Delete().After("gorm:delete").Before("gorm:after_delete").Register("c13x:stmt", c13xProbe("delete"))
 	_ = db.Callback().Query().After("gorm:query").Before("gorm:preload").Register("c13x:stmt", c13xProbe("query"))
+	c13EnsureAux(db)
 	c13x.mu.Lock()
 	c13x.failAt, c13x.log, c13x.pools, c13x.rec = "", nil, nil, rec
 	c13x.mu.Unlock()
@@ -480,6 +491,7 @@ func c13xRun(c c13xCase) c13xObs {
 	obs.Before = c13xDump(db, rec)
 	c13x.mu.Lock()
 	c13x.failAt, c13x.log, c13x.pools = c.FailAt, nil, nil
+	c13x.failErr, c13x.returned = c.FailErr, nil
 	c13x.mu.Unlock()
 	rec.Reset()
 	if c.FailStmt > 0 {
@@ -497,11 +509,27 @@ func c13xRun(c c13xCase) c13xObs {
 		rec.mu.Unlock()
 	}
 	h := db
+	if c.Ctx == "prepare-session" {
+		h = db.Session(&gorm.Session{PrepareStmt: true}) // prepared statements per session, not per config
+	}
 	if c.Skip == "session" {
-		h = db.Session(&gorm.Session{SkipHooks: true})
+		h = h.Session(&gorm.Session{SkipHooks: true})
 	}
 	var res *gorm.DB
-	if c.Ctx == "usertx" {
+	if c.Ctx == "nested" {
+		// the operation runs in an inner Transaction (SAVEPOINT) whose error the outer one swallows and commits:
+		// only the rollback to the savepoint can undo what the failed operation did
+		_ = db.Transaction(func(tx *gorm.DB) error {
+			_ = tx.Transaction(func(tx2 *gorm.DB) error {
+				if c.Skip == "session" {
+					tx2 = tx2.Session(&gorm.Session{SkipHooks: true})
+				}
+				res = c13xExec(tx2, c)
+				return res.Error
+			})
+			return nil
+		})
+	} else if c.Ctx == "usertx" {
 		_ = db.Transaction(func(tx *gorm.DB) error {
 			if c.Skip == "session" {
 				tx = tx.Session(&gorm.Session{SkipHooks: true})
@@ -520,8 +548,15 @@ func c13xRun(c c13xCase) c13xObs {
 	rec.mu.Unlock()
 	c13x.mu.Lock()
 	obs.Events = append([]c13xEv{}, c13x.log...)
-	c13x.failAt, c13x.rec = "", nil
+	returned := c13x.returned
+	c13x.failAt, c13x.rec, c13x.failErr, c13x.returned = "", nil, "", nil
 	c13x.mu.Unlock()
+	obs.ErrReturned = res != nil && res.Error != nil && len(returned) > 0
+	for _, e := range returned {
+		if !c13ErrCarries(res.Error, e) {
+			obs.ErrReturned = false
+		}
+	}
 	// driver-level transaction windows
 	win, open := -1, false
 	for _, e := range rec.Snapshot() {
